@@ -17,7 +17,8 @@ class C07(Prop):
     id = 'C07'
     also_release = True
     module = 'Cbor.Props.C07'
-    theorems = ['Props.C07.C07_serialize', 'Props.C07.C07_size', 'Props.C07.C07_size_overflow', 'Props.C07.C07_alloc', 'Props.C07.C07_alloc_overflow',
+    extra_modules = ['Cbor.Props.LeafSerializers']      # cbor_serialized_size on leaves: the GENERATED function (Gen/Serializers.lean) = Model.size = encoded length
+    theorems = ['Props.LeafSerializers.leaf_size_eq', 'Props.LeafSerializers.leaf_size_spec', 'Props.C07.C07_serialize', 'Props.C07.C07_size', 'Props.C07.C07_size_overflow', 'Props.C07.C07_alloc', 'Props.C07.C07_alloc_overflow',
                 'Props.C07.C07_encoders', 'Props.C07.encoder_frame', 'Props.C07.C07_encoders_safe', 'Lemmas.Ser.ser_item', 'Lemmas.Ser.size_spec']
     trusted_base = BASE_TRUST + SER_TRUST
     rule = ('(item, n): every tree of the C03 corpus (all leaf kinds x boundary values, indefinite strings, nested containers to depth 4, partially '
@@ -57,8 +58,15 @@ class C07(Prop):
                 for n in range(11): lines.append('ENC %s %d %d' % (fn, v, n))
         return lines
 
+    def odd_half_lines(self):
+        lines = []
+        for b in trees.ODD_HALF_BITS:
+            for f, size in (('h(%d)' % b, 3), ('h!(%d)' % b, 3), ('A[u8(1),h(%d),u8(2)]' % b, 6), ('G(1,h(%d))' % b, 4)):
+                for n in range(0, size + 2): lines.append('SER %s %d' % (f, n))
+        return lines
+
     def corr_lines(self, tier, rng):
-        return self.ser_lines(tier, rng) + self.enc_lines(tier, rng)
+        return self.ser_lines(tier, rng) + self.enc_lines(tier, rng) + self.odd_half_lines()
 
     def nontrivial(self, line, out):
         return True
@@ -141,6 +149,23 @@ class C07(Prop):
             except Exception as ex:
                 why = 'unparseable output %r: %r' % (o[:100], ex)
             if why: fails.append({'input': l, 'expected': 'see why', 'observed': o[:400], 'why': why})
+        # half-width items holding values no half denotes: three bytes all the same - size and return value agree at every n, nothing beyond n is written
+        ol = self.odd_half_lines()
+        oo, rc, err = ctx.run_c(ol)
+        if rc != 0:
+            i, l, e = core.first_crash_line(ctx.harness, ol)
+            return fails + [{'input': l, 'expected': 'a result', 'observed': 'implementation aborted / sanitizer report', 'why': e[-1000:]}]
+        for l, o in zip(ol, oo):
+            ctx.count(l, o); ctx.bump('odd_half')
+            w = l.split(); n = int(w[2]); f = w[1]
+            size = 3 if f[0] == 'h' else 6 if f[0] == 'A' else 4
+            ow = o.split(); ret = int(ow[0]); buf = bytes.fromhex(ow[1]) if ow[1] != '-' else b''
+            why = None
+            if 'size=%d ' % size not in o + ' ': why = 'cbor_serialized_size is not %d' % size
+            elif ret != (size if n >= size else 0): why = 'returned %d with n=%d, size %d' % (ret, n, size)
+            elif buf[ret:] != b'\xee' * (len(buf) - ret) and ret: why = 'bytes beyond the reported length were modified'
+            elif 'unchanged=1' not in o or 'noalloc=1' not in o or 'DIFFERS' in o: why = 'the item was modified / memory requested / the type-specific serializer disagrees'
+            if why: fails.append({'input': l, 'expected': 'ret = %d if n >= %d else 0; size=%d' % (size, size, size), 'observed': o[:300], 'why': why})
         ctx.exhaustive['n_0_to_size_plus_2_for_small_trees'] = True
         ctx.exhaustive['encoders_n_0_to_10'] = True
         return fails[:20]
